@@ -90,6 +90,18 @@ theorem C20_file_root_full_fails : ¬ C20_file_root_full := by
   rw [h1] at this
   simp at this
 
+/-- The repaired `build()` (`buildFileAll`, /verif/fixes/C20-end-offset-node.diff: the File node adopts
+every root) satisfies the FULL statement, for every stream: the root has the File node plus exactly
+the reported nodes, and below the File node sits the forest of `C20_builder_correct` unchanged. -/
+theorem C20_file_root_repaired (fileTy : Int) (n : Nat) (evs : List Ev) :
+    (buildFileAll fileTy n evs).ids.Perm (List.range (evs.length + 1)) ∧
+    (buildFileAll fileTy n evs).kids = build evs := by
+  refine ⟨?_, rfl⟩
+  have := (inv0_build evs).ids
+  simp only [buildFileAll, Tree.ids]
+  rw [List.range_succ]
+  exact (List.Perm.cons _ this).trans (List.perm_append_singleton _ _).symm
+
 /-- **Event nesting, parsers without error recovery** (`x.recovering = false`; this includes every
 accepted input of any parser): for every run of the runtime model — any input, any fuel, cancelled or
 not — the listener stream is well nested within `[0, endOff]`. -/
